@@ -31,11 +31,19 @@
   answer:   <flow> | <printed values, oldest first> | <variables of every block left, innermost first, blocks
             separated by "/"> | <functions …, as name:number of parameters> | commit / nocommit (Processor.Execute
             with AutoCommit: are the changes of the run committed?)
+  keyed ops:  c15.runk <fuel> <nn> ent*nn <program>   |   c15.runktx …      the names of the program as RAW TEXT
+    ent     := v<num>:<hex> | t<num>:<hex> | c<num>:<hex> | f<num>:<hex>     variable / temporary table / cursor / function
+               number <num> of the program is written <hex> (UTF-8) in the program text; what is one object is decided
+               by `canon refKey` (Model/ScopeKeys.lean: variables by the exact text, the others by strings.ToUpper)
+    answer:  as above, but the variables / functions of a block are reported PER LISTED NAME, ascending by number:
+             `<num>=<value>` for every listed number whose name finds an object in that block (an object that two
+             listed names reach is reported under both)
     flow    := N (Terminate) | X (Exit) | B | K | R<value> (Break / Continue / Return reaching the top level: only in
                syntax trees csvq's parser rejects) | E<csvq error number> | Efuel
     value   := N | I<int> | TT | TF | TU
 -/
-import Csvq.Model.Scope
+import Csvq.Model.ScopeKeys
+import Csvq.Model.Proto
 namespace Csvq.Drive
 open Csvq Csvq.Scope
 
@@ -271,10 +279,61 @@ def showRun (tx : Bool) (r : PRes) : String :=
   String.intercalate " | " [showOutcome r.outcome, joinOr "-" (r.st.out.reverse.map showVal),
     String.intercalate "/" vars, String.intercalate "/" funs] ++ (if tx then (if r.commits then " | commit" else " | nocommit") else "")
 
+/-- `v3:4076` -/
+def pEnt (t : String) : Option NameEnt :=
+  match t.splitOn ":" with
+  | [tag, hx] =>
+    let kind : Option Kind := match tag.front with
+      | 'v' => some .var | 't' => some .view | 'c' => some .cursor | 'f' => some .fn | _ => none
+    match kind, (tag.drop 1).toNat?, Proto.unhex hx with
+    | some k, some n, some raw => some ⟨n, k, raw⟩
+    | _, _, _ => none
+  | _ => none
+
+def pEnts : Nat → P (List NameEnt)
+  | 0, ts => some ([], ts)
+  | _ + 1, [] => none
+  | n + 1, t :: ts =>
+    match pEnt t with
+    | some e => (pEnts n ts).map fun (es, r) => (e :: es, r)
+    | none => none
+
+def listedNums (T : Names) : List Nat := (sortByKey (T.map fun e => (e.num, ()))).map Prod.fst
+
+/-- the answer of a keyed run: per block, every listed name that finds an object there -/
+def showRunK (tx : Bool) (p : KProg) (r : PRes) : String :=
+  let vars := r.st.blocks.map fun b =>
+    joinOr "-" ((listedNums p.Tv).filterMap fun n =>
+      match aget (canon refKey p.Tv n) b.vars with
+      | some v => some (toString n ++ "=" ++ (if n ≥ 200 then showCursor v else showVal v))
+      | none => none)
+  let funs := r.st.blocks.map fun b =>
+    joinOr "-" ((listedNums p.Tf).filterMap fun n =>
+      match aget (canon refKey p.Tf n) b.funs with
+      | some d => some (toString n ++ ":" ++ toString d.params.length)
+      | none => none)
+  String.intercalate " | " [showOutcome r.outcome, joinOr "-" (r.st.out.reverse.map showVal),
+    String.intercalate "/" vars, String.intercalate "/" funs] ++ (if tx then (if r.commits then " | commit" else " | nocommit") else "")
+
+def runK (tx : Bool) (fuel : String) (rest : List String) : String :=
+  match fuel.toNat?, pCount rest with
+  | some fuel, some (nn, ts) =>
+    match pEnts nn ts with
+    | some (ents, ts1) =>
+      match pBlock ts1 with
+      | some (prog, []) =>
+        let p : KProg := ⟨ents.filter (fun e => e.kind != .fn), ents.filter (fun e => e.kind == .fn), prog⟩
+        if decide p.Tv.WF && decide p.Tf.WF then showRunK tx p (runKeyed refKey fuel p) else "bad-names"
+      | _ => "bad-op"
+    | none => "bad-op"
+  | _, _ => "bad-op"
+
 end C15
 
 def c15 (cmd : String) (args : List String) : String :=
   match cmd, args with
+  | "runk", fuel :: rest => C15.runK false fuel rest
+  | "runktx", fuel :: rest => C15.runK true fuel rest
   | "run", fuel :: prog =>
     match fuel.toNat?, C15.pBlock prog with
     | some fuel, some (p, []) => C15.showRun false (executeI fuel p none St.init)
